@@ -6,6 +6,10 @@ ROOT = os.path.dirname(os.path.dirname(os.path.abspath(__file__)))
 
 # id -> (technique, level text, level note, design ref)
 CLAIMED = {
+ "C20": ("field-store enumeration of the SSH server config, decision-table extraction of the public-key callback, string-dispatch surface extraction, call-graph unreachability from the anonymous exec callback",
+         "Decides: only public-key auth is ever configured; the key callback accepts iff the listener is anonymous or the presented key is in the loaded set (which is non-nil whenever an authorised address is configured); only session channels and env/exec requests are handled; from the anonymous listener's exec callback no CLI/client entry, process spawn, dial or listener is reachable while the daemon handler is.",
+         "Trusted: x/crypto/ssh. Context-insensitive reachability (a mode check inside the general entry point would still be reported). One genuine defect repaired by a fix: commit.",
+         "DESIGN.md §3 C20"),
  "C08": ("call-graph reachability of process terminators from session entry points + intraprocedural/interprocedural integer taint with dominating-comparison bounds (SSA)",
          "Partial, structural: no os.Exit/log.Fatal/explicit panic is reachable from daemon, client or SSH session entry points; every integer read from the wire that reaches an index, slice bound or make length is bounded by dominating comparisons; SumHead fields are range-checked by their reader; connection errors cannot reach the accept loop. Nil dereferences, arithmetic-dependent panics and library panics are NOT decided.",
          "Trusted: VTA call-graph soundness assumptions; Go runtime semantics of bounds checks. Three genuine defects repaired by fix: commits. The demultiplexer's buffer-size panic is discharged through C17/BUFFER+LENGTH-GATE.",
